@@ -68,6 +68,7 @@ func runC16(r *rt.Run, tier string) {
 	mustFail := signerIdx == 2
 	either := false // corruption of the signature member itself: only soundness is demanded
 	var eioMember *arMember
+	tornBy := 0
 	if signerIdx == 2 {
 		fault = "outsider-signature"
 	}
@@ -80,14 +81,16 @@ func runC16(r *rt.Run, tier string) {
 		}
 		decoyNames := []string{"control.tar", "control.tar.gz", "control.tar.zst", "data.tar", "data.tar.gz", "control.sig", "control.md5", "control.", "data.img", "data.cpio.gz"}
 		nDecoy := len(decoyNames) * 2
-		const nAppend, nEIO = 3, 2
-		total := nBytes + nDecoy + 2 + 2 + nAppend + nEIO
+		const nAppend, nEIO, nTorn = 3, 2, 2
+		total := nBytes + nDecoy + 2 + 2 + nAppend + nEIO + nTorn
 		fp := faultIndex(r, total, func() int {
-			switch t.Weighted([]int{5, 3, 1, 1, 1, 3}, "fault.kind") {
+			switch t.Weighted([]int{5, 3, 1, 1, 1, 3, 1}, "fault.kind") {
 			case 4:
 				return nBytes + nDecoy + 4 + t.Draw(nAppend, "fault.append")
 			case 5:
 				return nBytes + nDecoy + 4 + nAppend + t.Draw(nEIO, "fault.eio")
+			case 6:
+				return nBytes + nDecoy + 4 + nAppend + nEIO + t.Draw(nTorn, "fault.torn")
 			case 0:
 				// bias: signature member and the small debian-binary get as much attention as the big ones
 				m := t.Draw(4, "fault.member")
@@ -213,6 +216,15 @@ func runC16(r *rt.Run, tier string) {
 			}
 			fault = "bytes-appended/" + map[*arMember]string{p.BinMember: "debian-binary", p.CtlMember: "control", p.DataMember: "data"}[m]
 			r.Fault("stored.bytes-appended")
+		case fp >= nBytes+nDecoy+4+nAppend+nEIO:
+			// a decoy control.*/data.* member appended as the LAST member of a torn
+			// file: the image ends inside the decoy's content
+			name := []string{"data.tar.xz", "control.tar"}[fp-nBytes-nDecoy-4-nAppend-nEIO]
+			dm := &arMember{Name: name, RawName: name, Mode: "100644", Data: t.Sub("c16.torn").Bytes(120 + t.Draw(200, "c16.tornlen"))}
+			ms = append(ms, dm)
+			tornBy = 1 + t.Draw(len(dm.Data)-1, "c16.tornby")
+			fault = "decoy-last-member-torn/" + name
+			r.Fault("stored.decoy-member-torn")
 		default:
 			// a failing disk range inside the control or the data member: loading may
 			// fail, but whatever is accepted must still be the signed content
@@ -245,6 +257,12 @@ func runC16(r *rt.Run, tier string) {
 		}
 	}
 	img := renderAr(cloneMembers(ms))
+	if tornBy > 0 && tornBy < len(img) {
+		img = img[:len(img)-tornBy]
+		if len(img)%2 == 1 && tornBy%2 == 0 {
+			img = img[:len(img)-1]
+		}
+	}
 	r.Event("workload", fault, fmt.Sprintf("ctl=%q data=%q role=%s ask=%s signer=%d keyring=%d bytes=%d", p.CtlCodec, p.DataCodec, role, askRole, signerIdx, krKind, len(img)))
 
 	nloads := 1 + t.Draw(3, "c16.loads")
@@ -341,13 +359,35 @@ func runC16(r *rt.Run, tier string) {
 	firsts := make([]bool, nloads)
 	// genuine packages may be loaded and verified by concurrent tasks, interleaved
 	// at every disk read: several signed packages open at the same time
+	twin := -1
+	var twinImg []byte
 	concurrent := fault == "none" && nloads > 1 && t.Bool(1, 2, "c16.concurrent")
 	if concurrent {
 		r.Probe("loads-interleaved")
 		r.Sticky = t.Draw(3, "sched.sticky")
+		if t.Bool(1, 2, "c16.twin") {
+			// one of the concurrent callers handles a TWIN of the package in which
+			// one byte of the control member differs: it must not verify, however
+			// the calls interleave
+			twin = t.Draw(nloads, "c16.twinidx")
+			tms := cloneMembers(ms)
+			for _, x := range tms {
+				if x.Name == p.CtlMember.Name && len(x.Data) > 0 {
+					x.Data = append([]byte{}, x.Data...)
+					x.Data[t.Draw(len(x.Data), "c16.twinbyte")] ^= 0x20
+				}
+			}
+			twinImg = renderAr(tms)
+			r.Probe("tampered-twin-verified-concurrently")
+		}
 		for li := 0; li < nloads; li++ {
 			firsts[li] = t.Bool(1, 2, "c16.verifyfirst")
-			attempts[li].task = r.Go(fmt.Sprintf("LV%d", li), mkAttempt(&attempts[li], firsts[li], newDisk()))
+			d := newDisk()
+			if li == twin {
+				d = simdisk.New(r, "twin", twinImg)
+				d.MaxCalls = 4*len(twinImg) + 8000
+			}
+			attempts[li].task = r.Go(fmt.Sprintf("LV%d", li), mkAttempt(&attempts[li], firsts[li], d))
 		}
 		r.Sched()
 	}
@@ -363,6 +403,12 @@ func runC16(r *rt.Run, tier string) {
 			return
 		}
 		ok := a.loadErr == nil && a.verErr == nil
+		if li == twin {
+			if ok {
+				r.Violate("C16/accepted-tampered-package", "tampered-twin-beside-genuine", "a copy of the package with one control byte altered was loaded and verified (while the genuine package was being verified by a concurrent caller)")
+			}
+			continue
+		}
 		if ok {
 			accepted++
 			// soundness: whatever happened to the stored bytes, an accepted
@@ -415,5 +461,5 @@ func init() {
 		},
 		Assumptions: []string{"x/crypto/openpgp both makes and verifies the signatures: a bug common to both directions is invisible", "test keys are committed fixtures (key generation is not reproducible in Go); signing with a fixed signature time is byte-deterministic"},
 	})
-	propProbes["C16"] = []string{"debian-binary-with-further-lines", "loads-interleaved", "repeated-checks-on-one-package", "verification-succeeded", "payload-read-after-verification", "decoy-with-identical-name"}
+	propProbes["C16"] = []string{"tampered-twin-verified-concurrently", "debian-binary-with-further-lines", "loads-interleaved", "repeated-checks-on-one-package", "verification-succeeded", "payload-read-after-verification", "decoy-with-identical-name"}
 }
